@@ -1,6 +1,7 @@
 //! fsim — deterministic simulation of foyer with fault injection. See /verif/DESIGN.md.
 
 mod batch;
+mod c08scn;
 mod choice;
 mod cgen;
 mod hist;
@@ -16,6 +17,38 @@ mod memscn;
 mod run;
 mod sched;
 mod types;
+
+/// foyer's io buffers are allocated uninitialised and their padding reaches the simulated device; with a plain
+/// allocator those bytes would be whatever another run (on another worker thread) freed earlier - including complete,
+/// correctly checksummed entries of that other run. Zeroing every allocation makes the bytes a run writes a function
+/// of that run alone.
+struct ZeroingAlloc;
+
+unsafe impl std::alloc::GlobalAlloc for ZeroingAlloc {
+    unsafe fn alloc(&self, layout: std::alloc::Layout) -> *mut u8 {
+        unsafe { std::alloc::System.alloc_zeroed(layout) }
+    }
+    unsafe fn dealloc(&self, ptr: *mut u8, layout: std::alloc::Layout) {
+        unsafe { std::alloc::System.dealloc(ptr, layout) }
+    }
+    unsafe fn alloc_zeroed(&self, layout: std::alloc::Layout) -> *mut u8 {
+        unsafe { std::alloc::System.alloc_zeroed(layout) }
+    }
+    unsafe fn realloc(&self, ptr: *mut u8, layout: std::alloc::Layout, new_size: usize) -> *mut u8 {
+        unsafe {
+            let new_layout = std::alloc::Layout::from_size_align_unchecked(new_size, layout.align());
+            let new = std::alloc::System.alloc_zeroed(new_layout);
+            if !new.is_null() {
+                std::ptr::copy_nonoverlapping(ptr, new, layout.size().min(new_size));
+                std::alloc::System.dealloc(ptr, layout);
+            }
+            new
+        }
+    }
+}
+
+#[global_allocator]
+static GLOBAL: ZeroingAlloc = ZeroingAlloc;
 
 fn usage() -> ! {
     eprintln!("usage: fsim <PROPERTY> [--tier quick|thorough] | --replay <file> [--quiet] | --selftest-determinism <PROPERTY> <n>");
